@@ -69,7 +69,9 @@ def main():
     nullable_by_name = [x for x in types if x[0]["k"] == "rec" and _re.search(r"alias\((alias\()?(opt|union\(null)", we.type_class(x[0]))]
     if not thorough:
         fixed = [x for x in types if x[0]["k"] in ("prim", "farr", "fvec")]
-        first = nullable_by_name[:12]
+        # ... and records of fixed-width numeric fields (NumPy users hand streams of them over as structured arrays)
+        pod = [x for x in types if _re.fullmatch(r"rec\(((u?int\d+|float\d+|complexfloat\d+),?)+\)", we.type_class(x[0]))]
+        first = nullable_by_name[:12] + pod[:4]
         types = first + fixed[:24] + [x for x in types if x not in fixed and x not in first][:60]
     c.cov["records_nullable_through_alias"] = len(nullable_by_name if thorough else nullable_by_name[:12])
     pkgs = [StreamPackage(i, types[j:j + 16], sc) for i, j in enumerate(range(0, len(types), 16))]
@@ -183,7 +185,7 @@ def main():
                 for cap in (1, 2, 3, 4):
                     rr = we.leg(p, "cpp", "binary", "binary", vals, "cp-%d-%d-%d" % (pi, r, cap), block=list(part), bufsize=cap)
                     out.append((p, "cpp-copy-cap%d" % cap, {"partition": list(part)}, None if rr["ok"] else rr["msg"], rr.get("in")))
-                for mode in ("copy", "items", "list"):
+                for mode in ("copy", "items", "list", "ndarray"):
                     rr = we.leg(p, "py", "binary", "binary", vals, "py-%d-%d-%s" % (pi, r, mode), block=list(part), mode=mode)
                     out.append((p, "py-copy-" + mode, {"partition": list(part)}, None if rr["ok"] else rr["msg"], rr.get("in")))
                 jv = p.items(r, True)
@@ -219,7 +221,7 @@ def main():
             pad, recs = args
             vals = bp.vals_for(recs)
             out = []
-            for mode in ("list", "items", "copy"):
+            for mode in ("list", "items", "copy", "ndarray"):
                 out.append(("py-big-" + mode, pad, we.leg(bp, "py", "binary", "binary", vals, "big-py-%d-%s" % (pad, mode), block=[7, 1, None][pad % 3], mode=mode)))
             for cap in (1, 7, 64):
                 out.append(("cpp-big-cap%d" % cap, pad, we.leg(bp, "cpp", "binary", "binary", vals, "big-cpp-%d-%d" % (pad, cap), block=[7, 1, None][pad % 3], bufsize=cap)))
